@@ -7,7 +7,7 @@ import lena.flow
 import lena.meta
 import lena.output
 
-TEMPLATE = {"M": "m_{{%s}}", "W": "w_{{%s}}", "C": "c%d_{{%s}}.pkl"}
+TEMPLATE = {"M": "m_{{%s}}", "W": "w_{{%s}}", "W0": "{{%s}}", "C": "c%d_{{%s}}.pkl"}
 
 
 def fields(key):
@@ -82,8 +82,8 @@ def _leaf(spec, path, b):
         el = lena.meta.UpdateContextFromStatic()
     elif kind == "M":
         el = lena.output.MakeFilename(TEMPLATE["M"] % fields(spec[1]))
-    elif kind == "W":
-        el = lena.output.Write(TEMPLATE["W"] % fields(spec[1]), verbose=False)
+    elif kind in ("W", "W0"):
+        el = lena.output.Write(TEMPLATE[kind] % fields(spec[1]), verbose=False)
     elif kind == "C":
         uid = b.uid()
         b.uids[path] = uid
@@ -160,9 +160,9 @@ def observe_leaf(spec, path, b):
         if isinstance(res, tuple) and isinstance(res[1], dict):
             return res[1].get("output", {}).get("filename")
         return None
-    if kind == "W":
+    if kind in ("W", "W0"):
         name = el.output_directory
-        return None if name == TEMPLATE["W"] % fields(spec[1]) else name
+        return None if name == TEMPLATE[kind] % fields(spec[1]) else name
     if kind == "C":
         uid = b.uids[path]
         name = el._filename
